@@ -66,6 +66,7 @@ def run(chk: Check) -> None:
     run_replayed_lists_reset(chk, ix)
     run_comma_lists_stripped(chk, ix)
     run_glob_stars_span_components(chk, ix)
+    run_sections_inherit_from_parents(chk, ix)
     O = options_attrs(ix)
     mopt = ix.module("mypy.options")
     mcfg = ix.module("mypy.config_parser")
@@ -607,3 +608,35 @@ def run_glob_stars_span_components(chk: Check, ix) -> None:
             r.ok(key, f.loc(node), f"{frag!r} matches {samples}")
         else:
             r.violation(key, f.loc(node), f"the fragment {frag!r} does not match {bad[0]!r}: a star that stops at a dot covers one component only, so `[mypy-*.models]` no longer applies to proj.app.models (and no longer overrides structured sections or the command line there)")
+
+
+def run_sections_inherit_from_parents(chk: Check, ix) -> None:
+    """R17.13: every structured section is built on top of what its parents give."""
+    r13 = chk.rule("R17.13", "Options.build_per_module_cache materialises each structured section (`foo.*`, `foo.bar`) as `clone_for_module(key).apply_changes(own settings)`: clone_for_module(key) supplies what the enclosing wildcard sections and the matching unstructured globs give (`[mypy-foo.*]` also covers `foo` itself). The object whose apply_changes() result is stored in `_per_module_cache[key]` is, for every key of the loop, the result of `self.clone_for_module(key)` (one unconditional definition): a shortcut for some shape of key (no dot, no wildcard) drops the inherited settings for exactly those sections", floor=1)
+    f = ix.func("mypy.options.Options.build_per_module_cache")
+    n = 0
+    for loop in ast.walk(f.node):
+        if not isinstance(loop, ast.For) or not isinstance(loop.target, ast.Name):
+            continue
+        k = loop.target.id
+        for a in ast.walk(loop):
+            if not (isinstance(a, ast.Assign) and isinstance(a.targets[0], ast.Subscript) and "_per_module_cache" in norm(a.targets[0].value) and norm(a.targets[0].slice) == k):
+                continue
+            n += 1
+            key = "build_per_module_cache: each section's own settings are applied onto clone_for_module(key)"
+            v = a.value
+            base = v.func.value if isinstance(v, ast.Call) and isinstance(v.func, ast.Attribute) and v.func.attr == "apply_changes" else None
+            if base is None:
+                r13.violation(key, f.loc(a), f"`{norm(a)[:80]}`: the stored object is not the result of <base>.apply_changes(...)")
+                continue
+            if isinstance(base, ast.Name):
+                defs = [x.value for x in ast.walk(loop) if isinstance(x, ast.Assign) and len(x.targets) == 1 and isinstance(x.targets[0], ast.Name) and x.targets[0].id == base.id]
+            else:
+                defs = [base]
+            good = len(defs) == 1 and isinstance(defs[0], ast.Call) and call_name(defs[0]) == "clone_for_module" and norm(defs[0].func).startswith("self.") and len(defs[0].args) == 1 and norm(defs[0].args[0]) == k
+            if good:
+                r13.ok(key, f.loc(a))
+            else:
+                r13.violation(key, f.loc(a), f"the base options are {[norm(d)[:60] for d in defs]}: for some keys the parents' settings (wildcard sections that cover the key, matching unstructured globs) are not inherited, e.g. `[mypy-foo.*] disallow_untyped_defs = True` is lost for module `foo` as soon as an unrelated `[mypy-foo]` section exists")
+    if n < 1:
+        raise AnalysisError("build_per_module_cache: no store into _per_module_cache[key] inside a loop found")
